@@ -108,7 +108,10 @@ class Num(Val):
             yield self.length
 
     def subst(self, f):
-        return Num(f(self.r), None if self.length is None else f(self.length), self.kind)
+        out = Num(f(self.r), None if self.length is None else f(self.length), self.kind)
+        if getattr(self, 'view', False):
+            out.view = True             # a basic slice of an ndarray stays a view of it under renaming of loop symbols
+        return out
 
     def is_const(self):
         return self.length is None and self.r.is_const()
